@@ -146,12 +146,17 @@ claim("C16",
       "C16_defaults (use_cache defaults to true, structured to false, extensions to [rs], and the three fields carry "
       "those default functions); C16_no_cache_no_lock (use_cache false: the run is independent of the lock and "
       "performs no lock operation); C16_corrupt_lock_ignored (an unparsable lock behaves like an absent one: first "
-      "pass over the code); C16_next_run_starts_from_lock; C16_nothing_to_scan (discovery error or no in-scope file: "
-      "non-zero exit and no effect, both modes). Tie: the full product of present/omitted/explicit values x lock "
+      "pass over the code); C16_next_run_starts_from_lock; C16_lock_text_roundtrip (Model/Lock.v: the TEXT the tool writes "
+      "-- translated CACHE_EDIT_WARNING + translated field name of struct Cache + decimal -- is read back as the same "
+      "number, for every u32) and C16_lock_text_shapes (document start, CRLF, trailing comments, indentation; empty / "
+      "comments only / above u32::MAX are corrupt); C16_nothing_to_scan (discovery error or no in-scope file: "
+      "non-zero exit and no effect, both modes). Tie: a stream of lock texts classified by the real binary and by the "
+      "extracted lock reader (the reader answers `outside the modelled subset` where it does not model serde_yaml), the "
+      "written lock compared byte for byte with lock_text; the full product of present/omitted/explicit values x lock "
       "classes x modes x trees through the real binary compared with the model and judged directly, failing "
       "configurations, and the defaults read back through the hook library.",
-      "YAML parsing is serde_yaml's (a configuration is its parsed field set; lock classes are fixed by construction "
-      "of the templates)." + COMMON_NOTE,
+      "YAML parsing is serde_yaml's: a configuration is its parsed field set; the lock reader of Model/Lock.v models it "
+      "only on the line shapes a lock file has (anything else: RUnknown, excluded from the comparison and counted)." + COMMON_NOTE,
       "Coq proof over translated defaults + configuration product on the real binary",
       "DESIGN.md section 6, C16")
 
